@@ -1892,7 +1892,7 @@ class ktensor:
 
         # all weights are equal to 1
         if np.array_equal(self.weights, np.ones(self.weights.shape)):
-            return self.factor_matrices.copy()
+            return [factor.copy() for factor in self.factor_matrices]
 
         lsgn = np.sign(self.weights)
         D = np.diag(np.power(np.fabs(self.weights), 1.0 / self.ndims))
